@@ -83,7 +83,9 @@ type Engine struct {
 	curVisited string
 	siteDeps  map[string][]int
 	closedDone map[string]bool
+	compWM    map[string]Term // watermark at the time a havoc'd component constant was created
 	exposing  bool
+	allocExtra Term
 	wm        Term // watermark: every object that exists so far (including those allocated by earlier callees) is <= wm
 	wmCall    Term // watermark just before the call whose postcondition is being evaluated
 	wmN       int
@@ -100,7 +102,7 @@ func NewEngine(p *Program, fn *ssa.Function, fc *FuncContract) *Engine {
 	return &Engine{P: p, Fn: fn, FC: fc, FuncID: p.FuncIDOf(fn), declared: map[string]bool{}, reified: map[int]bool{},
 		labels: map[string]*callLabel{}, callOrd: map[string]int{}, kindOrd: map[string]int{}, notes: map[string]bool{},
 		used: map[string]bool{}, strlits: map[string]string{}, siteType: map[int]types.Type{}, params: map[string]Val{},
-		ghost: map[string]Term{}, safetyOn: true, loopPre: map[string]*State{}, autoInvs: map[string][]autoChk{}, rangeOf: map[*ssa.Range]Val{}, strSeen: map[string]bool{}, unclassified: map[string]bool{}, bodyOrd: map[string]int{}, needs: map[int][]string{}, siteDeps: map[string][]int{}, closedDone: map[string]bool{}}
+		ghost: map[string]Term{}, safetyOn: true, loopPre: map[string]*State{}, autoInvs: map[string][]autoChk{}, rangeOf: map[*ssa.Range]Val{}, strSeen: map[string]bool{}, unclassified: map[string]bool{}, bodyOrd: map[string]int{}, needs: map[int][]string{}, siteDeps: map[string][]int{}, closedDone: map[string]bool{}, compWM: map[string]Term{}}
 }
 
 func (e *Engine) note(format string, args ...interface{}) {
@@ -318,26 +320,94 @@ func (e *Engine) safety(kind, what string, reach, cond Term) {
 // so an "unsat" answer still proves the path inconsistent).
 func (e *Engine) BuildQuery(o *Obligation) string { return e.buildQuery(o, false) }
 
-func (e *Engine) buildQuery(o *Obligation, groundOnly bool) string {
+// sliceAssumptions: indices of the assumptions in the cone of influence of the obligation (connected to it
+// through shared declared symbols). Dropping assumptions can only make a proof harder, never unsound; the
+// caller falls back to the full set when the sliced query is not discharged.
+func (e *Engine) sliceAssumptions(o *Obligation) map[int]bool {
+	ubiq := func(t string) bool {
+		return t == "alloc0" || t == "rtype" || t == "strlen" || t == "str_empty" || strings.HasPrefix(t, "wm!") || t == "select" || t == "store" || t == "and" || t == "or" || t == "not" || t == "ite" || t == "forall" || t == "let" || t == "mod" || t == "div"
+	}
+	syms := func(s string) []string {
+		var out []string
+		for _, t := range tokRe.FindAllString(s, -1) {
+			if !ubiq(t) && e.declared[t] {
+				out = append(out, t)
+			}
+		}
+		return out
+	}
+	n := o.NAssume
+	asyms := make([][]string, n)
+	bySym := map[string][]int{}
+	for i := 0; i < n; i++ {
+		asyms[i] = syms(e.assumes[i].S)
+		for _, t := range asyms[i] {
+			bySym[t] = append(bySym[t], i)
+		}
+	}
+	keep := map[int]bool{}
+	seen := map[string]bool{}
+	var work []string
+	for _, t := range append(syms(o.Reach.S), syms(o.Cond.S)...) {
+		if !seen[t] {
+			seen[t] = true
+			work = append(work, t)
+		}
+	}
+	for len(work) > 0 {
+		t := work[len(work)-1]
+		work = work[:len(work)-1]
+		for _, i := range bySym[t] {
+			if keep[i] {
+				continue
+			}
+			keep[i] = true
+			for _, u := range asyms[i] {
+				if !seen[u] {
+					seen[u] = true
+					work = append(work, u)
+				}
+			}
+		}
+	}
+	// assumptions without any declared symbol (pure arithmetic facts about alloc0 etc.) are always kept
+	for i := 0; i < n; i++ {
+		if len(asyms[i]) == 0 {
+			keep[i] = true
+		}
+	}
+	return keep
+}
+
+func (e *Engine) buildQuery(o *Obligation, groundOnly bool) string { return e.buildQueryWith(o, groundOnly, nil) }
+
+func (e *Engine) buildQueryWith(o *Obligation, groundOnly bool, only map[int]bool) string {
 	var b strings.Builder
 	b.WriteString("(set-option :produce-models true)\n(set-logic ALL)\n")
 	b.WriteString(preludeInt)
-	// string literals: distinct constants with known length
+	// string literals: distinct constants with known length (deterministic order)
+	var litKeys []string
+	for s := range e.strlits {
+		litKeys = append(litKeys, s)
+	}
+	sort.Strings(litKeys)
 	var lits []string
-	for s, n := range e.strlits {
+	for _, s := range litKeys {
+		n := e.strlits[s]
 		b.WriteString(fmt.Sprintf("(declare-const %s Str)\n(assert (= (strlen %s) %d))\n", n, n, len(s)))
 		lits = append(lits, n)
-		_ = s
 	}
 	sort.Strings(lits)
 	if len(lits) > 1 {
 		b.WriteString("(assert (distinct " + strings.Join(lits, " ") + "))\n")
 	}
-	for s, n := range e.strlits {
-		for s2, n2 := range e.strlits {
+	for _, s := range litKeys {
+		n := e.strlits[s]
+		for _, s2 := range litKeys {
+			n2 := e.strlits[s2]
 			if s != s2 && strings.HasPrefix(s, s2) {
 				b.WriteString(fmt.Sprintf("(assert (str_hasprefix %s %s))\n", n, n2))
-			} else if s != s2 {
+			} else if s != s2 && len(litKeys) <= 24 {
 				b.WriteString(fmt.Sprintf("(assert (not (str_hasprefix %s %s)))\n", n, n2))
 			}
 		}
@@ -356,6 +426,9 @@ func (e *Engine) buildQuery(o *Obligation, groundOnly bool) string {
 	var body strings.Builder
 	var cond []int
 	for i, a := range e.assumes[:o.NAssume] {
+		if only != nil && !only[i] {
+			continue
+		}
 		if groundOnly && strings.Contains(a.S, "(forall ") {
 			continue
 		}
@@ -376,6 +449,9 @@ func (e *Engine) buildQuery(o *Obligation, groundOnly bool) string {
 		txt := body.String()
 		for _, i := range cond {
 			if included[i] {
+				continue
+			}
+			if only != nil && !only[i] {
 				continue
 			}
 			for _, sym := range e.needs[i] {
@@ -468,6 +544,7 @@ func (s *State) havocPrefix(prefixes []string, keepSites bool) {
 	e := s.e
 	e.epoch++
 	ep := e.epoch
+	wmNow := e.watermark()
 	match := func(name string) bool {
 		if name == lockComp && !(len(prefixes) == 1 && prefixes[0] == lockComp) {
 			// the lockset changes only through lock operations and contracts that name L.held explicitly
@@ -496,6 +573,7 @@ func (s *State) havocPrefix(prefixes []string, keepSites bool) {
 	for name, old := range s.heap {
 		if match(name) {
 			nw := e.declare(fmt.Sprintf("%s@h%d", name, ep), old.Sort)
+			e.compWM[nw.S] = wmNow
 			s.heap[name] = nw
 			if keepSites {
 				e.preserveSites(name, old, nw)
@@ -505,6 +583,7 @@ func (s *State) havocPrefix(prefixes []string, keepSites bool) {
 	s.base = func(name string, sort Sort) Term {
 		if match(name) {
 			nw := e.declare(fmt.Sprintf("%s@h%d", name, ep), sort)
+			e.compWM[nw.S] = wmNow
 			if keepSites {
 				var old Term
 				if o, ok := oldHeap[name]; ok {
@@ -935,7 +1014,11 @@ func (e *Engine) closedHeap(comp Term, lf Leaf, elems bool) {
 	}
 	cs := []string{fmt.Sprintf("(<= %s alloc0)", sel)}
 	if !strings.HasSuffix(strings.Trim(name, "|"), "@0") {
-		cs = append(cs, fmt.Sprintf("(> %s (+ alloc0 1000000))", sel))
+		wm := e.watermark()
+		if w, ok := e.compWM[name]; ok {
+			wm = w
+		}
+		cs = append(cs, fmt.Sprintf("(and (> %s (+ alloc0 1000000)) (<= %s %s))", sel, sel, wm.S))
 		for k := 1; k <= e.sites; k++ {
 			if e.reified[k] {
 				cs = append(cs, fmt.Sprintf("(= %s %s)", sel, e.siteRef(k).S))
